@@ -1837,11 +1837,21 @@ package go_clipper2
 //@   assumes groupsOK(co)
 //@   loop 0 invariant [groups] groupsOK(co)
 
+// the rectangle's sides in clockwise order: Left -> Top -> Right -> Bottom -> Left
+//@ spec cwNext(a Location) Location = ite(a == Left, Top, ite(a == Top, Right, ite(a == Right, Bottom, Left)))
+//@ spec cwStep(a, b Location) int = ite(b == cwNext(a), 1, ite(a == cwNext(b), -1, 0))
+//@ spec cwTurns(locs []Location, k int) int = ite(k <= 1, 0, cwTurns(locs, k-1) + cwStep(locs[k-2], locs[k-1]))
+//@ spec sidesOnly(locs []Location) bool = forall(k, 0, len(locs), locs[k] == Left || locs[k] == Top || locs[k] == Right || locs[k] == Bottom)
+
 //@ func startLocsAreClockwise
 //@   props C03 C06
-//@   panicfree
-//@   loop 0 invariant [idx] 1 <= i
+//@   arith math
+//@   loop 0 invariant [idx] 1 <= i && (len(startLocs) >= 1 ==> i <= len(startLocs))
+//@   loop 0 invariant [turns] sidesOnly(startLocs) ==> result == cwTurns(startLocs, i)
 //@   loop 0 decreases len(startLocs) - i
+//@   loop 0 invariant [empty] len(startLocs) == 0 ==> result == 0
+//@   ensures [clockwise-iff-more-clockwise-steps] (sidesOnly(startLocs) && len(startLocs) >= 1) ==> result == (cwTurns(startLocs, len(startLocs)) > 0)
+//@   ensures [no-steps-is-not-clockwise] len(startLocs) == 0 ==> !result
 
 //@ func NewRectClipLines64
 //@   props C11 C03
